@@ -1,12 +1,10 @@
 import OZ.Drv.C20Util
-import OZ.Model.RegHooks
+import OZ.Model.RegHooksMon
 /-
 `hooks ...` sub-driver of C20: compliance hook module lists. Hooks 0..4, modules 0..nm-1.
 -/
 namespace OZ.Drv.C20.Hooks
-open OZ.Drv OZ.Drv.C20 OZ.RegHooks
-
-def NH : Nat := 5
+open OZ.Drv OZ.Drv.C20 OZ.RegHooks OZ.RegHooks.Mon
 
 structure M where
   s : State
@@ -37,45 +35,26 @@ def stepLine (m : M) (line : String) : M × String :=
     | .ok s' => let m' := { m with s := s' }; (m', "ok " ++ showState m')
     | .error _ => (m, "err " ++ showState m)
 
-structure Mon where
-  rel : List (Nat × Nat)      -- (hook, module)
-  nm : Nat
+/-! ### monitor: parsing only; the checks are `OZ.RegHooks.Mon.checkCore` (OZ/Model/RegHooksMon.lean),
+proved sound in OZ/Props/C20hMon.lean -/
 
 def minit (ws : List String) : Mon := { rel := [], nm := (kvNat? ws "nm").getD 4 }
 
-def check (g : Mon) (opl obs : String) : Mon × Option String :=
+def parseObs (obs : String) : Obs :=
   let ws := words obs
-  let ok := ws.head? == some "ok"
+  { ok := ws.head? == some "ok",
+    H := (parts ";" (kvS ws "H")).map (fun e => match e.splitOn ":" with
+      | [h, l] => (h.toNat?.getD 99, natList l)
+      | _ => (99, [])),
+    Hraw := kvS ws "H",
+    reg := kvS ws "reg" }
+
+def check (g : Mon) (opl obs : String) : Mon × Option String :=
   match parseOp (words opl) with
   | none => (g, some s!"site=hooks.parse bad op {opl}")
-  | some op =>
-    let cnt (h : Nat) : Nat := (g.rel.filter (fun p => p.1 == h)).length
-    let plain : Except String Mon := match op with
-      | .add h m => if g.rel.contains (h, m) then .error "dup" else if cnt h ≥ 20 then .error "limit.add_module_to.modules"
-                    else .ok { g with rel := g.rel ++ [(h, m)] }
-      | .remove h m => if g.rel.contains (h, m) then .ok { g with rel := g.rel.erase (h, m) } else .error "absent"
-    let (g2, accept) : Mon × Option String :=
-      match plain, ok with
-      | .ok g', true => (g', none)
-      | .error _, false => (g, none)
-      | .ok _, false => (g, some (
-          let near := match op with
-            | .add h _ => if cnt h = 19 then "limit.add_module_to.modules" else "valid"
-            | _ => "valid"
-          refusedSite "hooks" near))
-      | .error why, true => (g, some (acceptedSite "hooks" why))
-    let H := (parts ";" (kvS ws "H")).map (fun e => match e.splitOn ":" with
-      | [h, l] => (h.toNat?.getD 99, natList l)
-      | _ => (99, []))
-    let hOk := (List.range NH).all (fun h =>
-      let want := (g2.rel.filter (fun p => p.1 == h)).map (·.2)
-      match H.find? (fun x => x.1 == h) with
-      | some (_, l) => nodupB l && sameSet l want
-      | none => false)
-    let regWant := (List.range NH).flatMap (fun h => (List.range g2.nm).map (fun x => g2.rel.contains (h, x)))
-    let fail := firstFail [accept,
-      chk hOk s!"site=hooks.enumerates_once get_modules_for_hook = {kvS ws "H"} does not list the plain sets once each",
-      chk (kvS ws "reg" = bits regWant) "site=hooks.member is_module_registered differs from membership in the plain set"]
-    (g2, fail)
+  | some op => checkCore g op (parseObs obs)
+
+/-- the monitor state type, as the dispatcher OZ/Drv/C20.lean names it -/
+abbrev MonT := OZ.RegHooks.Mon.Mon
 
 end OZ.Drv.C20.Hooks
